@@ -12,6 +12,7 @@ import NeoModel.Proofs.MempoolEvents
 import NeoModel.Proofs.MempoolFull
 import NeoModel.Proofs.MempoolLin
 import NeoModel.Proofs.MempoolOrder
+import NeoModel.Proofs.MempoolAsync
 namespace NeoModel.Mempool.C08
 open NeoModel.Mempool
 
@@ -305,6 +306,37 @@ theorem evicts_exactly_last {U : Tx → Prop} (hw : WF U) {mp : Pool} (hi : Inv 
   · rw [if_neg hfull] at h3
     exact absurd (by rw [h3]; exact hall _ hxl) hnx
 
+/-! ## 13. The event stream under concurrency (the added event is sent after the unlock) -/
+
+/-- A call of `Add` is two steps: its critical section (removed events delivered at once) and, later, the
+delivery of its TransactionAdded event; other clients run critical sections in between. For EVERY schedule:
+the pool is the atomic pool of the calls in lock order; the removed events are delivered in lock order (the
+removed-subsequence of the delivered stream is that of the atomic stream); the delivered stream together with the
+events in flight is a permutation of the atomic stream; everything in flight is an added event; and once nothing
+is in flight, per hash #added = #removed + (1 if pooled). -/
+theorem async_events {U : Tx → Prop} (hw : WF U) (cap : Nat) (progs : List (List Op)) (s : List Nat) (cf : AConf)
+    (hok : ∀ p ∈ progs, ∀ op ∈ p, OpOk U op ∧ ∀ on, op ≠ .setSubs on)
+    (h : (AConf.init cap progs).exec s = some cf) :
+    cf.pool = cf.hist.foldl applyOp (setSubs (new cap) true) ∧
+    cf.delivered.filter notAdded = cf.pool.events.filter notAdded ∧
+    (cf.delivered ++ cf.flight.map (·.2)).Perm cf.pool.events ∧
+    (∀ x ∈ cf.flight, x.2.added = true) ∧
+    (cf.flight = [] → ∀ id,
+      countEv true id cf.delivered = countEv false id cf.delivered + (if (cf.pool.vmap id).isSome then 1 else 0)) := by
+  have hinv := ainv_exec hw s _ cf (ainv_init U cap progs hok) h
+  refine ⟨apool_exec s _ cf _ rfl h, hinv.removedOrder, hinv.perm, hinv.flightAdded, ?_⟩
+  intro hfl id
+  have hp : cf.delivered.Perm cf.pool.events := by
+    have := hinv.perm
+    rw [hfl] at this
+    simpa using this
+  rw [countEv_perm true id hp, countEv_perm false id hp]
+  have := replay_counts _ _ _ hinv.replays id
+  simp only [Option.isSome_none, Bool.false_eq_true, if_false, Nat.add_zero] at this
+  rw [this]
+  unfold content
+  cases cf.pool.vmap id <;> rfl
+
 /-! ## Non-vacuity -/
 
 section Examples
@@ -398,6 +430,20 @@ example : ((add (run 3 [.add a0 F, .add b0 F, .add c0 F]) c1 F 0).1.txs.map (·.
 example : Related c1 a0 ∧ Related c1 c0 ∧ ¬ Related c1 b0 := by
   refine ⟨Or.inr (Or.inl (by decide)), Or.inr (Or.inr ⟨by decide, by decide⟩), ?_⟩
   rintro (h | h | ⟨h, _⟩) <;> revert h <;> decide
+
+
+-- async_events, non-vacuity and the witness: client 0 adds a0, client 1 removes it; schedule: Add's critical section, Remove,
+-- then the delivery of the added event: the removed event overtakes it, the delivered stream does not replay
+-- strictly although it balances; with the schedule 0,0,1 it replays
+example : ((AConf.init 3 [[.add a0 F 1], [.remove 0]]).exec [0, 1, 0]).map
+    (fun cf => (cf.delivered, cf.flight, cf.pool.txs.map (·.id), (replay (fun _ => none) cf.delivered).isSome)) =
+    some ([⟨false, 0, 1⟩, ⟨true, 0, 1⟩], [], [], false) := by decide
+example : ((AConf.init 3 [[.add a0 F 1], [.remove 0]]).exec [0, 0, 1]).map
+    (fun cf => (cf.delivered, (replay (fun _ => none) cf.delivered).isSome)) =
+    some ([⟨true, 0, 1⟩, ⟨false, 0, 1⟩], true) := by decide
+-- an event in flight: after the critical section only
+example : ((AConf.init 3 [[.add a0 F 1], [.remove 0]]).exec [0]).map (fun cf => (cf.delivered, cf.flight)) =
+    some ([], [(0, ⟨true, 0, 1⟩)]) := by decide
 
 
 end Examples
